@@ -30,6 +30,14 @@ fn main() {
         out.finish();
         return;
     }
+    if args.len() >= 3 && args[1] == "tree" {
+        // replay an explicit merge tree: avgh tree <Type> ( [ w w ] [ w ] )
+        let mut out = Out::new("DATA", None);
+        let mut rng = Rng::new(1);
+        if !props_struct::replay_tree(&mut out, &mut rng, &args[2], &args[3..]) { eprintln!("unknown type or malformed tree"); std::process::exit(2); }
+        out.finish();
+        return;
+    }
     if args.len() < 5 || args[1] != "gen" {
         eprintln!("usage: avgh gen <property> <quick|thorough> <seed> [--only <case>]");
         std::process::exit(2);
